@@ -39,20 +39,21 @@ def _dtx(d):
     return digits.ph(d.year, 4) + '-' + digits.ph(d.month, 2) + '-' + digits.ph(d.day, 2) + 'T' + digits.ph(d.hour, 2) + ':' + digits.ph(d.minute, 2)
 
 
-def _ttx(h, m):
-    return 'T' + digits.ph(h, 2) + ':' + digits.ph(m, 2)
+def _ttx(h, m, sec):
+    return 'T' + digits.ph(h, 2) + ':' + digits.ph(m, 2) + ':' + digits.ph(sec, 2)
 
 
-def h_datetime_points(o1: int, h1: int, m1: int, gapmin: int, h2: int, m2: int):
+def h_datetime_points(o1: int, h1: int, m1: int, gapmin: int, h2: int, m2: int, s2: int):
     """mode 'both': begin = any minute of any day 1900..2088, end = begin + 1..20000 minutes: the resolved start/end are exactly the
     endpoints and the TIMEX is (begin, end, PT..) with a duration equal to end - begin.
     modes 'begin'/'end': the bare clock time is placed on the other end's date; when that gives start < end, the duration equals end - start"""
-    assert 693596 <= o1 <= 762000 and 0 <= h1 <= 23 and 0 <= m1 <= 59 and 1 <= gapmin <= 20000 and 0 <= h2 <= 23 and 0 <= m2 <= 59
+    assert 693596 <= o1 <= 762000 and 0 <= h1 <= 23 and 0 <= m1 <= 59 and 1 <= gapmin <= 20000 and 0 <= h2 <= 23 and 0 <= m2 <= 59 and 0 <= s2 <= 59
     digits.reset()
     day = datetime.fromordinal(o1)
     a = datetime(day.year, day.month, day.day, h1, m1, 0)
     par = _Par()
     if MODE == 'both':
+        assume(s2 == 0)
         b = a + timedelta(minutes=gapmin)
         DTPP.config._date_time_extractor = _Ext([(5, 2, 'D1'), (11, 2, 'D2')], Constants.SYS_DATETIME_DATETIME)
         DTPP.config._time_extractor = _Ext([], Constants.SYS_DATETIME_TIME)
@@ -60,17 +61,17 @@ def h_datetime_points(o1: int, h1: int, m1: int, gapmin: int, h2: int, m2: int):
         DTPP.config._date_time_parser = par
         want_b, want_e = a, b
     else:
-        t = datetime(day.year, day.month, day.day, h2, m2, 0)       # what the time parser returns for a bare time: on the reference day
-        tref = datetime(2000, 6, 15, h2, m2, 0)
+        t = datetime(day.year, day.month, day.day, h2, m2, s2)      # the bare clock time (with seconds) placed on the other end's date
+        tref = datetime(2000, 6, 15, h2, m2, s2)                    # what the time parser returns for a bare time: on the reference day
         if MODE == 'begin':
             DTPP.config._date_time_extractor = _Ext([(5, 2, 'D1')], Constants.SYS_DATETIME_DATETIME)
             DTPP.config._time_extractor = _Ext([(11, 2, 'T2')], Constants.SYS_DATETIME_TIME)
-            par.vals = {'D1': (a, _dtx(a), 0), 'T2': (tref, _ttx(h2, m2), 0)}
+            par.vals = {'D1': (a, _dtx(a), 0), 'T2': (tref, _ttx(h2, m2, s2), 0)}
             want_b, want_e = a, t
         else:
             DTPP.config._date_time_extractor = _Ext([(11, 2, 'D1')], Constants.SYS_DATETIME_DATETIME)
             DTPP.config._time_extractor = _Ext([(5, 2, 'T2')], Constants.SYS_DATETIME_TIME)
-            par.vals = {'D1': (a, _dtx(a), 0), 'T2': (tref, _ttx(h2, m2), 0)}
+            par.vals = {'D1': (a, _dtx(a), 0), 'T2': (tref, _ttx(h2, m2, s2), 0)}
             want_b, want_e = t, a
         assume(want_b < want_e)                                     # an ordered pair (the statement's quantifier)
         DTPP.config._date_time_parser = par
